@@ -104,8 +104,10 @@ Proof.
   unfold iter_documents. intros H Hi.
   destruct (expire c) as [c0|e] eqn:E; simpl in H; [ | discriminate ].
   assert (H0 : Inv c0) by (eapply expire_inv; eauto).
-  match type of H with (let! _ := ?x in _) = _ => destruct x end; simpl in H; [ | discriminate ].
-  destruct (scan f (docs c0)) as [m0|e] eqn:Es; simpl in H; [ | discriminate ].
+  destruct (match docs c0 with [] => filter_applies f (VDoc []) | _ => Ok true end) as [b|e];
+    simpl in H; [ | destruct (Nat.eqb _ _); discriminate ].
+  destruct (scan f (docs c0)) as [m0|e] eqn:Es; simpl in H;
+    [ | destruct (Nat.eqb _ _); discriminate ].
   inv_pair H. split; [ exact H0 | eapply scan_dns; eauto ].
 Qed.
 
